@@ -193,7 +193,7 @@ pub fn run(ctx: &Ctx) -> i32 {
     });
 
     // ---- replay on real trees with the real verifiers
-    let n_replay = ctx.tier.pick(96u64, 1200);
+    let n_replay = ctx.tier.pick(800u64, 6000);
     par_cases(ctx, &mon, "realtree", n_replay, |cc, rng, l| {
         let cfg = if rng.chance(1, 2) { Cfg::Wa } else { Cfg::Exp };
         with_cfg!(cfg, TC, { block_on(replay_on_real_tree::<TC>(cc, rng, l)) })
@@ -284,7 +284,46 @@ async fn replay_on_real_tree<TC: Configuration>(cc: &CaseCtx, rng: &mut Rng, l: 
     let conflict_stale: Vec<u64> = absent_stale_2.iter().filter(|s| stale.contains(s)).copied().collect();
     let predicted_both = conflict_fresh.is_empty() && conflict_stale.is_empty();
 
-    // dishonest server: fresh(v) enters at epoch v with value val{v}; stale(v) enters at epoch v+1
+    // The dishonest server also chooses WHEN each version enters the tree: one version per epoch (ep(v) = v),
+    // or several versions of the label inside ONE epoch (bursts, everything in the current epoch) - the
+    // verifiers only require epochs not to increase as versions decrease.  stale(v) enters together with
+    // fresh(v+1).  The set-level prediction does not depend on this choice; the real verifiers must not either.
+    let maxv = fresh.iter().chain(stale.iter()).copied().max().unwrap_or(1).max(1);
+    let epoch_mode = rng.below(4);
+    let mut ep_of: Vec<u64> = vec![0; (maxv + 2) as usize];
+    match epoch_mode {
+        0 => {
+            for v in 1..=maxv + 1 {
+                ep_of[v as usize] = v.min(e);
+            }
+        }
+        1 => {
+            // random non-decreasing, repeats allowed
+            let mut cur = 1u64;
+            for v in 1..=maxv + 1 {
+                if v > 1 {
+                    cur = (cur + rng.below(3)).min(e);
+                }
+                ep_of[v as usize] = cur;
+            }
+        }
+        2 => {
+            // a burst: every version from a pivot on enters in the current epoch
+            let pivot = rng.range(1, maxv);
+            for v in 1..=maxv + 1 {
+                ep_of[v as usize] = if v >= pivot { e } else { v.min(e) };
+            }
+        }
+        _ => {
+            for v in 1..=maxv + 1 {
+                ep_of[v as usize] = e;
+            }
+        }
+    }
+    let ep = |v: u64| -> u64 { ep_of[(v as usize).min(ep_of.len() - 1)] };
+    let stale_ep = |v: u64| -> u64 { ep(v + 1).max(ep(v)) };
+    l.count(&format!("realtree_epoch_mode_{epoch_mode}"), 1);
+    // dishonest server: fresh(v) enters at epoch ep(v) with value val{v}; stale(v) enters with fresh(v+1)
     let db = crate::xdb::XDb::new();
     let mgr = StorageManager::new_no_cache(db.clone());
     let vrf = KeyVrf::hard_coded();
@@ -294,15 +333,15 @@ async fn replay_on_real_tree<TC: Configuration>(cc: &CaseCtx, rng: &mut Rng, l: 
     };
     let pk = dir.get_public_key().await.unwrap().as_bytes().to_vec();
     let mut eh = EpochHash(0, [0u8; 32]);
-    for ep in 1..=e {
+    for epoch in 1..=e {
         let mut c = Corruption::default();
-        if fresh.contains(&ep) {
-            c.add_fresh.push((victim.clone(), ep, format!("val{ep}").into_bytes()));
+        for v in fresh.iter().filter(|v| ep(**v) == epoch) {
+            c.add_fresh.push((victim.clone(), *v, format!("val{v}").into_bytes()));
         }
-        if ep >= 2 && stale.contains(&(ep - 1)) {
-            c.add_stale.push((victim.clone(), ep - 1));
+        for v in stale.iter().filter(|v| stale_ep(**v) == epoch) {
+            c.add_stale.push((victim.clone(), *v));
         }
-        let filler: Batch = vec![(format!("filler{ep}").into_bytes(), b"x".to_vec())];
+        let filler: Batch = vec![(format!("filler{epoch}").into_bytes(), b"x".to_vec())];
         match dishonest::publish::<TC, _>(&mgr, &vrf, &filler, &c).await {
             Ok(x) => eh = x,
             Err(err) => {
@@ -316,7 +355,7 @@ async fn replay_on_real_tree<TC: Configuration>(cc: &CaseCtx, rng: &mut Rng, l: 
         return;
     }
     let forge = Forge::<TC>::new(&db, e, vrf.clone()).await;
-    let entries = |s: u64, n: u64| -> Vec<(u64, Vec<u8>, u64)> { (s..=n).rev().map(|v| (v, format!("val{v}").into_bytes(), v)).collect() };
+    let entries = |s: u64, n: u64| -> Vec<(u64, Vec<u8>, u64)> { (s..=n).rev().map(|v| (v, format!("val{v}").into_bytes(), ep(v))).collect() };
     let hp1 = if s1 == 1 { HistoryParams::Complete } else { HistoryParams::MostRecent((n - s1 + 1) as usize) };
     let p1 = forge.history_proof(&victim, &entries(s1, n), e, None).await;
     let a1 = match p1 {
@@ -324,7 +363,7 @@ async fn replay_on_real_tree<TC: Configuration>(cc: &CaseCtx, rng: &mut Rng, l: 
         None => false,
     };
     let a2 = if lookup_vs_history {
-        match forge.lookup_proof(&victim, m, format!("val{m}").as_bytes(), m, None).await {
+        match forge.lookup_proof(&victim, m, format!("val{m}").as_bytes(), ep(m), None).await {
             Some(p) => akd::client::lookup_verify::<TC>(&pk, eh.1, e, AkdLabel(victim.clone()), p).is_ok(),
             None => false,
         }
@@ -340,7 +379,8 @@ async fn replay_on_real_tree<TC: Configuration>(cc: &CaseCtx, rng: &mut Rng, l: 
     let kind = if lookup_vs_history { "LvH" } else { "HvH" };
     l.case(format!("{kind}/{e}/{n}/{m}/{s1}/{s2}").as_bytes(), true);
     let both = a1 && a2;
-    let detail = json!({"kind": kind, "cfg": cfg_of_name::<TC>(), "E": e, "n": n, "m": m, "s1": s1, "s2": s2,
+    let detail = json!({"kind": kind, "cfg": cfg_of_name::<TC>(), "E": e, "n": n, "m": m, "s1": s1, "s2": s2, "epoch_mode": epoch_mode,
+        "epoch_of_version": (1..=maxv).map(|v| ep(v)).collect::<Vec<_>>(),
         "fresh_leaves_in_tree": fresh, "stale_leaves_in_tree": stale, "history1_accepted": a1, "proof2_accepted": a2,
         "set_level_conflicts": {"fresh": conflict_fresh, "stale": conflict_stale}});
     if both == predicted_both {
